@@ -133,7 +133,12 @@ var st = &stats{
 }
 
 // SetMeta records the static description.
-func SetMeta(m Meta) { st.mu.Lock(); st.meta = m; st.mu.Unlock() }
+func SetMeta(m Meta) {
+	m.Rule += " Generator features that were added while the check was confronted with independently seeded changes are described in DESIGN.md section 6.6 (one table per round); the class counts of this file show how often each of them was drawn in this run."
+	st.mu.Lock()
+	st.meta = m
+	st.mu.Unlock()
+}
 
 // Hash64 hashes a canonical case description.
 func Hash64(s string) uint64 {
